@@ -19,6 +19,7 @@ func init() {
 			"precomputed unit size multiplies its own counter - and never answer a constant 'fits'. (S2) the exported tests pass on, as totals, the atomically loaded counters numMiniBlocks / numTxs PLUS the new items, each " +
 			"in its own argument position. (S3) AddNumMiniBlocks and AddNumTxs each add to their own counter. (S4) in precomputeValues the per-hash size is the difference of two measured dummy bodies with the same number of " +
 			"miniblocks, divided by at most the difference of their hash counts (a larger divisor halves the per-hash size and every estimate with it). " +
+			"(S5) in every function of the package that asks a size test and then accepts the items, the amounts added to the running totals equal the arguments of the last test that dominates the accumulation. " +
 			"Not decided (value-level): that the measured dummy miniblock is at least as large as a real one (varint widths of shard ids and types), the margin between the configured maximum and the network limit, uint32 wrap of the products.",
 		Run: runC33,
 	})
@@ -156,6 +157,59 @@ func runC33(c *core.Ctx) {
 		c.Check(ok && other == "", "C33/counters-wired", "blockSizeComputation."+w[0], fn.Pos(), "adds its argument to "+w[1],
 			"the items are not added to "+w[1]+" ("+other+"): the estimate counts them with the wrong unit size or not at all")
 	}
+	// S5: what was tested is what is counted. A preprocessor that asks "do these n miniblocks and
+	// m hashes still fit?" and then accepts them adds the same n and m to the running totals; the last
+	// test that dominates the accumulation is the reference (an earlier, smaller test of the same
+	// function - before the cross-shard results were known - is not).
+	nAcc := 0
+	for _, fn := range c.P.FuncsOfPkg(pkg) {
+		type sizeCall struct {
+			in   ssa.Instruction
+			args []ssa.Value
+		}
+		var tests []sizeCall
+		var adds [2][]sizeCall // AddNumMiniBlocks, AddNumTxs
+		core.Instrs(fn, func(in ssa.Instruction) {
+			cc := core.CallOf(in)
+			if cc == nil || !cc.IsInvoke() {
+				return
+			}
+			switch cc.Method.Name() {
+			case "IsMaxBlockSizeWithoutThrottleReached", "IsMaxBlockSizeReached":
+				if len(cc.Args) == 2 {
+					tests = append(tests, sizeCall{in, cc.Args})
+				}
+			case "AddNumMiniBlocks":
+				adds[0] = append(adds[0], sizeCall{in, cc.Args})
+			case "AddNumTxs":
+				adds[1] = append(adds[1], sizeCall{in, cc.Args})
+			}
+		})
+		if len(tests) == 0 || len(adds[0])+len(adds[1]) == 0 {
+			continue
+		}
+		c.Analysed(fname(fn))
+		for k, kind := range []string{"AddNumMiniBlocks", "AddNumTxs"} {
+			for i, a := range adds[k] {
+				// the last test dominating this accumulation
+				var ref *sizeCall
+				for j := range tests {
+					if core.DominatesInstr(tests[j].in, a.in) && (ref == nil || core.DominatesInstr(ref.in, tests[j].in)) {
+						ref = &tests[j]
+					}
+				}
+				if ref == nil {
+					continue
+				}
+				nAcc++
+				c.Sites++
+				c.Check(core.ExprKey(a.args[0]) == core.ExprKey(ref.args[k]), "C33/what-was-tested-is-what-is-counted", fmt.Sprintf("%s/%s#%d", fname(fn), kind, i+1), a.in.Pos(),
+					"the amount added is the amount the last size test was asked about",
+					fmt.Sprintf("%s adds %s to the running total, but the size test that admitted the items (at %s) was asked about %s: what is left out of the total is in the body all the same, and later tests admit more than fits", kind, core.ExprKey(a.args[0]), c.P.Pos(ref.in.Pos()), core.ExprKey(ref.args[k])))
+			}
+		}
+	}
+	c.Floor("C33/what-was-tested-is-what-is-counted", 8)
 	// S4
 	if fn := anchorM(c, pkg, "blockSizeComputation", "precomputeValues"); fn != nil {
 		measure := func(v ssa.Value) (mbs, hashes int64, ok bool) {
